@@ -149,7 +149,7 @@ def generate(prop, seed, tier='quick'):
         'actors': actors,
         # a few runs use the real /usr/bin/rsync and coreutils instead of the in-process copier (one scheduling point per
         # external call): nothing about the external programs is modelled there
-        'real_rsync': rng.random() < (0.04 if tier == 'quick' else 0.15),
+        'real_rsync': rng.random() < (0.08 if tier == 'quick' else 0.2),
         'policy': gen_policy(rng, freeze_roles=('packer', 'packer', 'packer', 'backup', 'backup', 'writer')),
         'decisions': None,
     }
